@@ -119,6 +119,16 @@ _p("C08", "z3 regular-expression inclusion queries on the patterns compiled by t
    "E-RE: patterns of length <= 4; E-CH: trees <= 4 nodes, all rotations, <= 3 components", RES_OUT + ["E-RE: case folding only for the alphabet's letters"], COMMON_ASSUME + ["sre parse tree -> z3 regex translation (validated against re on every run)"])
 PROPS["C08"]["engine"] = "E-RE + E-CH"
 
+_p("C17", "CrossHair/z3 bounded exhaustive lock-step execution of a plain node class and adversarial classes whose special methods record any invocation",
+   CH + ". The adversarial class overrides __eq__/__ne__/ordering/__hash__/__bool__/__len__/__iter__/__contains__/__getitem__; every override first records the call. "
+   "Since ANY invocation is already a violation, one all-overriding class covers every subset of overridden methods for the 'never invoked' clause; three behaviours "
+   "(always-equal+falsy+empty, never-equal, raising) and an unhashable class cover the 'same result' clause. Forest, structural call and behaviour are solver-picked; "
+   "after the call ~60 read-only queries per node (navigation, util, 5 iterators with stop/filter/maxlevel, search, Walker, Resolver get/glob incl. '**', RenderTree, Dict/Dot/UniqueDot/Mermaid exporters) run on both classes.",
+   "one path = (forest, call, arguments, behaviour); non-trivial = every path that reaches the query battery",
+   "forests with 4 nodes and parent=/del/children= with sequences <= 1, forests <= 3 nodes with sequences <= 2 (non-node object included), NodeMixin family; <= 3 nodes LightNodeMixin family",
+   "forests with <= 5 nodes (children sequences <= 2), both families <= 4 with sequences <= 3",
+   ["special methods other than the twelve listed", "JsonExporter/importers (no node comparison possible there)", "nodes beyond the bound"], COMMON_ASSUME + ["the harness itself touches nodes only via `is`"])
+
 MUT_OUT = ["more nodes than the bound", "hooks that themselves mutate the tree (re-entrancy)", "concurrent mutation",
            "iterables with side effects while being consumed by children="]
 
@@ -282,6 +292,16 @@ def obligations(prop, tier):
             out.append(dict(name="glob_semantics4", module="harness.resolve", body="glob_body", cfg={"N": 4, "L": 2}, depth=5, bounds="N<=4 L<=2 all rotations", picked="same", symbolic="-"))
             out.append(dict(name="glob_semantics3", module="harness.resolve", body="glob_body", cfg={"N": 3, "L": 3, "rotations": 8}, depth=5, bounds="N<=3 L<=3 8 rotations", picked="same", symbolic="-"))
             out.append(dict(name="glob_semantics_sep", module="harness.resolve", body="glob_body", cfg={"N": 3, "L": 2, "sep": "::"}, depth=4, bounds="N<=3 L<=2 separator '::'", picked="same", symbolic="-"))
+    elif prop == "C17":
+        pk = "n, parent vector (forest), call, arguments, behaviour of the special methods"
+        if q:
+            out.append(dict(name="identity_mixin4", module="harness.identity", body="c17_body", cfg={"N": 4, "exactN": True, "L": 1}, depth=5, bounds="N=4 L<=1", picked=pk, symbolic="-"))
+            out.append(dict(name="identity_mixin3", module="harness.identity", body="c17_body", cfg={"N": 3, "L": 2}, depth=4, bounds="N<=3 L<=2", picked=pk, symbolic="-"))
+            out.append(dict(name="identity_light", module="harness.identity", body="c17_body", cfg={"N": 3, "L": 2, "family": "light"}, depth=4, bounds="N<=3 L<=2", picked=pk, symbolic="-"))
+        else:
+            out.append(dict(name="identity_mixin5", module="harness.identity", body="c17_body", cfg={"N": 5, "exactN": True, "L": 1}, depth=6, bounds="N=5 L<=1", picked=pk, symbolic="-"))
+            out.append(dict(name="identity_mixin4", module="harness.identity", body="c17_body", cfg={"N": 4, "L": 3}, depth=6, bounds="N<=4 L<=3", picked=pk, symbolic="-"))
+            out.append(dict(name="identity_light4", module="harness.identity", body="c17_body", cfg={"N": 4, "L": 3, "family": "light"}, depth=6, bounds="N<=4 L<=3", picked=pk, symbolic="-"))
     return out
 
 
